@@ -52,6 +52,9 @@ NOT_IN_CORPUS = ["gspath", "gzpath", "aspath", "azpath", "linearCombination", "g
 # option sets
 # ---------------------------------------------------------------------------------------------
 
+from monitors import c02_files
+
+
 def option_sets():
     o = []
 
@@ -886,6 +889,9 @@ def run(tier, replay):
                             c.violation("%s:%s:flavour" % (case["ctype"], case["label"]),
                                         "plain %s vs asan %s" % (vb[:4], va[:4]), [sp], payload=case["text0"])
                             break
+
+    c.use_flavour("plain")
+    c02_files.run_files(c, tier)
 
     c.extra["worst_rel_dev"] = {k: {"relative_deviation": v[0], "fraction_of_tolerance": v[1]} for k, v in tl.worst.items()}
     c.extra["conclusive_kinds_by_component_type"] = {k: sorted(v) for k, v in sorted(tl.by_type.items())}
